@@ -34,11 +34,11 @@ for p, mods in (("C11", ["Vet.Props.C11"]), ("C09", ["Vet.Props.C10"]), ("C10", 
                 "shards": {"quick": 8, "thorough": 16},
                 "explanation": "Theorems about the model of get_store_updates; correspondence of get_store_updates under six update modes per world; oracles on the real output (function layer) and on the three store files around real commands run on disk against a mock network (command layer)."}
 
-PROPS["C07"] = {"lean_modules": ["Vet.Props.C07"], "corr": ["corr.import"], "trusted": ["TOML parsing of peer files (whether a raw entry parses is an input flag of the model)", "toml/serde layer"], "assumptions": ["peer criteria names interned per source; table keys unique (sorted maps)"],
-                "explanation": "Theorems about the model of the import pipeline; correspondence of Store::mock_online on raw peer TOML served by a mock network (1-2 URLs, unparseable / unknown-criteria / non-importable entries, criteria-map incl. built-in overrides, exclude, lock for staleness marking) with importOne+updateFreshness; leak oracle recomputed from the raw peer data."}
+PROPS["C07"] = {"lean_modules": ["Vet.Props.C07", "Vet.Props.C15"], "corr": ["corr.import", "corr.validate", "corr.wire"], "trusted": ["TOML parsing of peer files (whether a raw entry parses is an input flag of the model)", "toml/serde layer"], "assumptions": ["peer criteria names interned per source; table keys unique (sorted maps)"],
+                "explanation": "Theorems about the model of the import pipeline; correspondence of Store::mock_online on raw peer TOML served by a mock network (1-2 URLs, unparseable / unknown-criteria / non-importable entries, criteria-map incl. built-in overrides, exclude, lock for staleness marking) with importOne+updateFreshness; leak oracle recomputed from the raw peer data; locked mode: real mock_acquire(--locked) of generated stores whose imports.lock is stale w.r.t. `exclude` or the set of imports vs validate of the model (theorem C07_locked_excluded_refused in Vet.Props.C15)."}
 
 PROPS["C15"] = {"lean_modules": ["Vet.Props.C15"], "corr": ["corr.validate", "corr.import", "corr.wire"], "trusted": ["TOML parser (text-level damage is decided by the real loader only)", "today + 12 months computed by chrono and supplied to the model"], "assumptions": CORE_ASSUME,
-                "explanation": "Theorems about the model of Store::validate and the resolver's panic sites; correspondence of the outcome class (refused / verdict / panic class) of the real mock_acquire + resolve with validate + resolve of the model on stores with one injected defect; malformed peer files through the import pipeline; text-level damage of the three files under catch_unwind."}
+                "explanation": "Theorems about the model of Store::validate (incl. the depth-first table check), the resolver's panic sites and the import step; correspondence of the outcome class (refused / verdict / panic class) of the real mock_acquire + resolve with validate + resolve of the model on stores with one defect injected at one of 17 sites; malformed peer files through the import pipeline; text-level damage of the three files under catch_unwind."}
 PROPS["C16"] = {"lean_modules": ["Vet.Props.C16"], "corr": ["corr.aggregate"], "trusted": ["entries abstracted to content ids by the harness (Debug rendering)", "final tidy() sort not modelled (lists compared as multisets per package)"], "assumptions": [],
                 "explanation": "Theorems about the model of do_aggregate_audits; correspondence with the real routine on 2-3 generated sources; oracles: error-iff, content, loadability, and the verdict with the aggregate imported vs a multi-URL import vs separate imports."}
 PROPS["C18"] = {"lean_modules": ["Vet.Props.C18"], "corr": [], "trusted": ["flock(2) exclusion and POSIX read/write semantics of the OS (assumed, not modelled)", "strace's report of the syscall sequence", "NFS / lock-unsupported file systems and Windows are out of scope"], "assumptions": ["each invocation follows the process program of lean/Vet/Model/Lock.lean (checked by trace conformance on the real Store API)"],
